@@ -108,7 +108,7 @@ def validate(ctx, name, blocks, on_reject, max_rounds=6):
 def run(ctx):
     model_check(ctx)
     rng = random.Random(ctx.seed)
-    phases = gen_phases(ctx, ctx.pick(150, 3000), ctx.pick(250, 3000), rng)
+    phases = gen_phases(ctx, ctx.pick(150, 1200), ctx.pick(250, 800), rng)
     sf = ctx.write_ndjson("ord_scn.ndjson", phases)
     tf = os.path.join(ctx.out, "ord_events.ndjson")
     res = ctx.go_test("ord", run="^TestOrdered$", timeout=ctx.pick(900, 3000), expect_ok=False,
